@@ -23,12 +23,18 @@ open UgoVerif.Compile (Walk Inv Rel isJumpOp readBE opWidth)
 
 /-! ### the end of a stretch of code is reachable for the scan -/
 
-/-- the stretch `[i, j)` of `a` is empty, or the instruction that ends at `j` is not a RETURN, or a jump
-    instruction of the stretch targets `j` -/
-def Falls (a : Array UInt8) (i j : Nat) : Prop :=
-  i = j ∨ ∃ q b, Walk a 0 q ∧ i ≤ q ∧ a[q]? = some b ∧
+/-- `Falls`: the stretch `[i, j)` of `a` is empty, or (`FallsJ`) the instruction that ends at `j` is not a
+    RETURN, or a jump instruction of the stretch targets `j` -/
+def FallsJ (a : Array UInt8) (i j : Nat) : Prop :=
+  ∃ q b, Walk a 0 q ∧ i ≤ q ∧ a[q]? = some b ∧
     ((b.toNat ≠ Compile.OpReturn ∧ q + 1 + opWidth b.toNat = j) ∨
      (isJumpOp b.toNat = true ∧ q + 5 ≤ j ∧ readBE a (q + 1) 4 = j))
+
+def Falls (a : Array UInt8) (i j : Nat) : Prop := i = j ∨ FallsJ a i j
+
+theorem FallsJ.mono {a : Array UInt8} {i i' j : Nat} (h : FallsJ a i j) (hi : i' ≤ i) : FallsJ a i' j := by
+  obtain ⟨q, b, hw, hq, hb, h⟩ := h
+  exact ⟨q, b, hw, by omega, hb, h⟩
 
 theorem Falls.pre {a a' : Array UInt8} {i j : Nat} (h : Falls a i j) (hp : Pre a a') (hj : j ≤ a.size) :
     Falls a' i j := by
@@ -547,7 +553,7 @@ theorem falls_ifnoelse (F : FloatOps) (B : List String) (pos : Pos) (c : Expr) (
         let j ← Compile.emit pos Compile.OpJumpFalsy [0]
         actT
         Compile.changeOperand j [(← Compile.curPos)]) cs = (.ok (), cs')) :
-    Falls cs'.insts cs.insts.size cs'.insts.size := by
+    FallsJ cs'.insts cs.insts.size cs'.insts.size := by
   obtain ⟨_, cs1, hcc, hc⟩ := bind_inv hc
   obtain ⟨j1, cs2, hj1, hc⟩ := bind_inv hc
   obtain ⟨_, cs3', hct, hc⟩ := bind_inv hc
@@ -586,7 +592,7 @@ theorem falls_ifnoelse (F : FloatOps) (B : List String) (pos : Pos) (c : Expr) (
     exact Compile.patch_get_mid _ _ _ _ hk (by simp; omega)
   have hrd : readBE cs'.insts (cs1.insts.size + 1) 4 = cs3.insts.size :=
     Compile.inst_read_jump hbs1 (by decide) rfl hat
-  refine .inr ⟨cs1.insts.size, UInt8.ofNat Compile.OpJumpFalsy, w1, hlec, ?_, .inr ⟨by decide, by omega, by rw [hrd, hsz']⟩⟩
+  refine ⟨cs1.insts.size, UInt8.ofNat Compile.OpJumpFalsy, w1, hlec, ?_, .inr ⟨by decide, by omega, by rw [hrd, hsz']⟩⟩
   simpa using hat 0 (by simp)
 
 set_option maxHeartbeats 1600000 in
@@ -602,7 +608,7 @@ theorem falls_ifelse (F : FloatOps) (B : List String) (pos : Pos) (c : Expr) (hF
         Compile.changeOperand j [(← Compile.curPos)]
         actE
         Compile.changeOperand j2 [(← Compile.curPos)]) cs = (.ok (), cs')) :
-    Falls cs'.insts cs.insts.size cs'.insts.size := by
+    FallsJ cs'.insts cs.insts.size cs'.insts.size := by
   obtain ⟨_, cs1, hcc, hc⟩ := bind_inv hc
   obtain ⟨j1, cs2, hj1, hc⟩ := bind_inv hc
   obtain ⟨_, cs3, hct, hc⟩ := bind_inv hc
@@ -683,7 +689,7 @@ theorem falls_ifelse (F : FloatOps) (B : List String) (pos : Pos) (c : Expr) (hF
     exact Compile.patch_get_mid _ _ _ _ hk (by simp; omega)
   have hrd : readBE cs'.insts (cs3.insts.size + 1) 4 = cs6.insts.size :=
     Compile.inst_read_jump hbs2 (by decide) rfl hat
-  refine .inr ⟨cs3.insts.size, UInt8.ofNat Compile.OpJump, w', by omega, ?_, .inr ⟨by decide, by omega, by rw [hrd, hsz']⟩⟩
+  refine ⟨cs3.insts.size, UInt8.ofNat Compile.OpJump, w', by omega, ?_, .inr ⟨by decide, by omega, by rw [hrd, hsz']⟩⟩
   simpa using hat 0 (by simp)
 
 theorem fall_if_core (F : FloatOps) (B : List String) (pos : Pos) (c : Expr) (body : List Stmt)
@@ -703,7 +709,7 @@ theorem fall_if_core (F : FloatOps) (B : List String) (pos : Pos) (c : Expr) (bo
   obtain ⟨_, csx, hp, hact⟩ := bind_inv hact
   obtain ⟨_, rfl⟩ := pure_inv hp
   have := falls_ifnoelse F B pos c hFc _ _ _ hT hcov1 hok1 hinv1 hact
-  rw [hi', ← hi1]; exact this
+  rw [hi', ← hi1]; exact .inr this
 
 theorem fall_if (F : FloatOps) (B : List String) (pos bp : Pos) (c : Expr) (body : List Stmt)
     (hFc : ExprF (bnd B) c = true) (hnb : isBoolLit c = false) (hb : StmtsF B body = true) :
@@ -739,7 +745,7 @@ theorem fall_ifElse_core (F : FloatOps) (B : List String) (pos : Pos) (c : Expr)
   obtain ⟨_, csx, hp, hact⟩ := bind_inv hact
   obtain ⟨_, rfl⟩ := pure_inv hp
   have := falls_ifelse F B pos c hFc _ _ _ _ _ _ hT hE hTg hcov1 hok1 hinv1 hact
-  rw [hi', ← hi1]; exact this
+  rw [hi', ← hi1]; exact .inr this
 
 theorem fall_ifElse (F : FloatOps) (B : List String) (pos bp : Pos) (c : Expr) (body : List Stmt) (e : Stmt)
     (hFc : ExprF (bnd B) c = true) (hnb : isBoolLit c = false) (hb : StmtsF B body = true) (he : ElseF B e = true)
@@ -750,6 +756,80 @@ theorem fall_ifElse (F : FloatOps) (B : List String) (pos bp : Pos) (c : Expr) (
   cases c with
   | bool p b => simp [isBoolLit] at hnb
   | _ => exact fall_ifElse_core F B pos _ body e hFc hb he okb rfl hc hcov hok hinv
+
+theorem fall_ifInit_core (F : FloatOps) (B : List String) (pos : Pos) (i : Stmt) (c : Expr) (body : List Stmt)
+    (hFi : StmtF B i = true) (hFc : ExprF (bnd (defsOf B i)) c = true) (hb : StmtsF (defsOf B i) body = true)
+    (oki : okS i = true) {act : Compile.CM Unit}
+    (hact : act = (compileStmt i >>= fun _ => (do
+        compileExpr c
+        let j ← Compile.emit pos Compile.OpJumpFalsy [0]
+        Compile.blockOf body (compileStmts body)
+        Compile.changeOperand j [(← Compile.curPos)])))
+    {cs cs' : CState} (hc : runCM (Compile.withBlock act) cs = (.ok (), cs'))
+    (hcov : Cov B (localIdx cs)) (hok : CsOK cs) (hinv : Inv cs) :
+    Falls cs'.insts cs.insts.size cs'.insts.size := by
+  subst hact
+  have hT := good_blockOf F (defsOf B i) _ _ body (good_stmts F body _ hb)
+  have hin := good_ifnoelse F (defsOf B i) pos c hFc _ _ _ hT
+  have hI := good_stmt F i B hFi
+  obtain ⟨cs1, cs2, hact, hi1, hi', hcov1, hok1, hinv1⟩ :=
+    withBlock_inv F hc (good_seq F B _ _ _ _ _ _ _ _ hI hin.toC) hcov hok hinv
+  obtain ⟨_, csm, hci, hact⟩ := bind_inv hact
+  obtain ⟨hsei, hokm, hcovm, _⟩ := hI cs1 csm hci hcov1 hok1
+  have gi := good_run ((Compile.allGood (sizeOf i + 1)).stmt i (Nat.lt_succ_self _) oki) hinv1 hci
+  have := (falls_ifnoelse F (defsOf B i) pos c hFc _ _ _ hT hcovm hokm gi.1 hact).mono gi.2.pre.1
+  rw [hi', ← hi1]; exact .inr this
+
+theorem fall_ifInit (F : FloatOps) (B : List String) (pos bp : Pos) (i : Stmt) (c : Expr) (body : List Stmt)
+    (hFi : StmtF B i = true) (hFc : ExprF (bnd (defsOf B i)) c = true) (hnb : isBoolLit c = false)
+    (hb : StmtsF (defsOf B i) body = true) (oki : okS i = true) : FallS B (.if_ pos (some i) c bp body none) := by
+  intro cs cs' hc hcov hok hinv _
+  rw [Compile.compileStmt_eq] at hc
+  simp only at hc
+  cases c with
+  | bool p b => simp [isBoolLit] at hnb
+  | _ => exact fall_ifInit_core F B pos i _ body hFi hFc hb oki rfl hc hcov hok hinv
+
+theorem fall_ifInitElse_core (F : FloatOps) (B : List String) (pos : Pos) (i : Stmt) (c : Expr) (body : List Stmt)
+    (e : Stmt) (hFi : StmtF B i = true) (hFc : ExprF (bnd (defsOf B i)) c = true)
+    (hb : StmtsF (defsOf B i) body = true) (he : ElseF (defsOf B i) e = true)
+    (oki : okS i = true) (okb : okSs body = true) {act : Compile.CM Unit}
+    (hact : act = (compileStmt i >>= fun _ => (do
+        compileExpr c
+        let j ← Compile.emit pos Compile.OpJumpFalsy [0]
+        Compile.blockOf body (compileStmts body)
+        let j2 ← Compile.emit pos Compile.OpJump [0]
+        Compile.changeOperand j [(← Compile.curPos)]
+        compileStmt e
+        Compile.changeOperand j2 [(← Compile.curPos)])))
+    {cs cs' : CState} (hc : runCM (Compile.withBlock act) cs = (.ok (), cs'))
+    (hcov : Cov B (localIdx cs)) (hok : CsOK cs) (hinv : Inv cs) :
+    Falls cs'.insts cs.insts.size cs'.insts.size := by
+  subst hact
+  have hT := good_blockOf F (defsOf B i) _ _ body (good_stmts F body _ hb)
+  have hE := (allS F (sizeOf e + 1)).els e (Nat.lt_succ_self _) (defsOf B i) he
+  have hin := good_ifelse F (defsOf B i) pos c hFc _ _ _ _ _ _ hT hE
+  have hTg : Compile.Good (Compile.blockOf body (compileStmts body)) :=
+    Compile.good_blockOf (Compile.good_compileStmts body okb)
+  have hI := good_stmt F i B hFi
+  obtain ⟨cs1, cs2, hact, hi1, hi', hcov1, hok1, hinv1⟩ :=
+    withBlock_inv F hc (good_seq F B _ _ _ _ _ _ _ _ hI hin.toC) hcov hok hinv
+  obtain ⟨_, csm, hci, hact⟩ := bind_inv hact
+  obtain ⟨hsei, hokm, hcovm, _⟩ := hI cs1 csm hci hcov1 hok1
+  have gi := good_run ((Compile.allGood (sizeOf i + 1)).stmt i (Nat.lt_succ_self _) oki) hinv1 hci
+  have := (falls_ifelse F (defsOf B i) pos c hFc _ _ _ _ _ _ hT hE hTg hcovm hokm gi.1 hact).mono gi.2.pre.1
+  rw [hi', ← hi1]; exact .inr this
+
+theorem fall_ifInitElse (F : FloatOps) (B : List String) (pos bp : Pos) (i : Stmt) (c : Expr) (body : List Stmt)
+    (e : Stmt) (hFi : StmtF B i = true) (hFc : ExprF (bnd (defsOf B i)) c = true) (hnb : isBoolLit c = false)
+    (hb : StmtsF (defsOf B i) body = true) (he : ElseF (defsOf B i) e = true)
+    (oki : okS i = true) (okb : okSs body = true) : FallS B (.if_ pos (some i) c bp body (some e)) := by
+  intro cs cs' hc hcov hok hinv _
+  rw [Compile.compileStmt_eq] at hc
+  simp only at hc
+  cases c with
+  | bool p b => simp [isBoolLit] at hnb
+  | _ => exact fall_ifInitElse_core F B pos i _ body e hFi hFc hb he oki okb rfl hc hcov hok hinv
 
 /-! ### every statement (list) of the fragment -/
 
@@ -834,7 +914,25 @@ theorem fstep_stmt {F : FloatOps} {n : Nat} (ih : AllF F n) (st : Stmt) (hsz : s
       simpa [okS] using okE_of_exprF _ e he
   | if_ pos init c bp body els =>
     cases init with
-    | some i => cases els <;> cases h
+    | some i =>
+      cases els with
+      | none =>
+        have h' : (StmtF B i && (ExprF (bnd (defsOf B i)) c && !isBoolLit c) && StmtsF (defsOf B i) body) = true := h
+        simp only [Bool.and_eq_true, Bool.not_eq_true'] at h'
+        have oki := (ih.stmt i (by ssz) B h'.1.1).1
+        have okb := (ih.stmts body (by ssz) _ h'.2).1
+        have okc := okE_of_exprF _ c h'.1.2.1
+        exact ⟨by simp [okS, oki, okc, okb], fall_ifInit F B pos bp i c body h'.1.1 h'.1.2.1 h'.1.2.2 h'.2 oki⟩
+      | some e' =>
+        have h' : (StmtF B i && (ExprF (bnd (defsOf B i)) c && !isBoolLit c) && StmtsF (defsOf B i) body &&
+          ElseF (defsOf B i) e') = true := h
+        simp only [Bool.and_eq_true, Bool.not_eq_true'] at h'
+        have oki := (ih.stmt i (by ssz) B h'.1.1.1).1
+        have okb := (ih.stmts body (by ssz) _ h'.1.2).1
+        have okc := okE_of_exprF _ c h'.1.1.2.1
+        have oke := ih.els e' (by ssz) _ h'.2
+        exact ⟨by simp [okS, oki, okc, okb, oke],
+          fall_ifInitElse F B pos bp i c body e' h'.1.1.1 h'.1.1.2.1 h'.1.1.2.2 h'.1.2 h'.2 oki okb⟩
     | none =>
       cases els with
       | none =>
